@@ -2,6 +2,7 @@
 //!
 //! * `h-c07 --dump-sha-gates FILE`: runs the REAL `Sha256Chip::configure` and writes its gate
 //!   polynomials and lookup arguments as expression ASTs (JSON) for `translators/c07_shagates.py`.
+//! * `h-c07 --dump-sha512-gates FILE`: same for the REAL `Sha512Chip::configure`.
 //! * `h-c07 --tier T --seed S --out DIR`: correspondence + oracle run.
 use mzkh::Ctx;
 
@@ -14,7 +15,11 @@ mod shachip;
 fn main() {
     let args: Vec<String> = std::env::args().collect();
     if args.len() >= 3 && args[1] == "--dump-sha-gates" {
-        shachip::dump_gates(&args[2]);
+        shachip::dump_gates(&args[2], false);
+        return;
+    }
+    if args.len() >= 3 && args[1] == "--dump-sha512-gates" {
+        shachip::dump_gates(&args[2], true);
         return;
     }
     if args.len() >= 3 && args[1] == "--sha-trace-debug" {
